@@ -20,6 +20,19 @@ CLAIMS = {
         "Bounded depth and alphabet; Pulse.fall_time trusted for the pending-fall-time clause (decided separately by C14).",
         "DESIGN.md §3 C02",
     ),
+    "C03": (
+        "model_checking",
+        "explicit-state BFS over call histories; lock-step co-simulation with a reference scheduler (RefSched) re-seeded from "
+        "the implementation's pre-state on every transition, plus model-free lower-bound monitors",
+        "All histories up to depth 2-4 over 18-33 op alphabets on 6 two-channel worlds (global+local on different / same basis, "
+        "two globals on one basis, global+DMM; bandwidths None/8/30 MHz, mixed per-channel bandwidths): every accepted add / "
+        "align / delay is compared with RefSched's earliest admissible start; min-delay / wait-for-all lower bounds, the "
+        "phase-shift barrier, exactness of no-delay, estimate_added_delay == inserted delay (and purity) and align's common end "
+        "are checked model-free on every transition.",
+        "Fall times of scheduled pulses are trusted inputs (C14). Detuned EOM idle slots on other channels may or may not count "
+        "as pulses (both accepted). Bounded depth/alphabet.",
+        "DESIGN.md §3 C03, Appendix A",
+    ),
 }
 
 PENDING_REASON = "check not built yet in this round (design in DESIGN.md §3); nothing is claimed for it"
